@@ -26,7 +26,7 @@ from simkit import core, runner  # noqa: E402
 import vfmain  # noqa: E402
 
 
-def function_spans(path: str) -> list[tuple[int, int, str]]:
+def function_spans(path: str) -> list[tuple[int, int, str, int]]:
     out = []
     with open(path) as fh:
         tree = ast.parse(fh.read())
@@ -34,7 +34,10 @@ def function_spans(path: str) -> list[tuple[int, int, str]]:
     def walk(node, prefix):
         for ch in ast.iter_child_nodes(node):
             if isinstance(ch, (ast.FunctionDef, ast.AsyncFunctionDef)):
-                out.append((ch.lineno, ch.end_lineno, prefix + ch.name))
+                first = ch.body[0]
+                if isinstance(first, ast.Expr) and isinstance(getattr(first, "value", None), ast.Constant) and isinstance(first.value.value, str) and len(ch.body) > 1:
+                    first = ch.body[1]  # (skip the docstring)
+                out.append((ch.lineno, ch.end_lineno, prefix + ch.name, first.lineno))
                 walk(ch, prefix + ch.name + ".")
             elif isinstance(ch, ast.ClassDef):
                 walk(ch, prefix + ch.name + ".")
@@ -86,11 +89,11 @@ def main() -> None:
         per: dict[str, list[int]] = {}
         for ln in missing:
             inner = None
-            for a, b, name in spans:
+            for a, b, name, body in spans:
                 if a <= ln <= b:
-                    inner = name  # the last (innermost) span containing the line wins
+                    inner = None if ln < body else name  # the last (innermost) span containing the line wins
             if inner is None:
-                continue  # module level (imports, class bodies): ran at import time, before the measurement
+                continue  # module level, def lines, decorators, defaults: ran at import time, before the measurement
             per.setdefault(inner, []).append(ln)
         for name, lns in per.items():
             print(f"    {name}: {','.join(map(str, lns))}")
